@@ -8,5 +8,17 @@ import (
 func cmdSim(tab *SymTab, rd *os.File, bw *bufio.Writer, workers int, iavl bool)   { panic("todo") }
 func cmdReplay(tab *SymTab, rd *os.File, bw *bufio.Writer)                        { panic("todo") }
 func extraCommand(cmd string, tab *SymTab, rd *os.File, bw *bufio.Writer, workers, n, depth int, seed int64) bool {
-	return false
+	switch cmd {
+	case "genesis":
+		cmdGenesis(tab, rd, bw)
+	case "codec":
+		cmdCodec(bw, n, seed)
+	case "codecreplay":
+		cmdCodecReplay(rd, bw)
+	case "reimport":
+		cmdReimport(tab, bw, n, depth, seed)
+	default:
+		return false
+	}
+	return true
 }
